@@ -87,7 +87,8 @@ def big_statement(rng, table: str, arity: int, mode: str, k: int):
 
 def make_case(rng):
     integ = "generic" if rng.random() < .8 else "rdflib"
-    table = rng.choice(["prefix", "datatype", "name"]) if integ == "generic" else "prefix"
+    # rdflib: prefixes, and datatypes through generalized statements (literal subject / predicate + object)
+    table = rng.choice(["prefix", "datatype", "name"]) if integ == "generic" else rng.choice(["prefix", "datatype"])
     phys = rng.choice([1, 2, 3])
     arity = 3 if phys == 1 else 4
     mode = "generic" if integ == "generic" else "rdf11"
